@@ -159,10 +159,12 @@ def pad_cases(draw):
         region = draw(gen.regions(allow_degenerate=True))
         pad = st.one_of(gen.finite(0, 1e4), gen.log_uniform(-6, 5))
     form = draw(st.sampled_from(["scalar", "pair"]))
+    # negative pads shrink the region (possibly past its centre line: plain arithmetic, still undone by the opposite pad)
+    sign = draw(st.sampled_from([1.0, 1.0, -1.0]))
     if form == "scalar":
         p = draw(pad)
-        return dict(region=region, pad=p, dyadic=dyadic)
-    return dict(region=region, pad=[draw(pad), draw(pad)], dyadic=dyadic)
+        return dict(region=region, pad=sign * p, dyadic=dyadic)
+    return dict(region=region, pad=[sign * draw(pad), draw(st.sampled_from([1.0, sign])) * draw(pad)], dyadic=dyadic)
 
 
 def check_pad(case, ctx):
@@ -174,7 +176,10 @@ def check_pad(case, ctx):
     exp = (region[0] - pe, region[1] + pe, region[2] - pn, region[3] + pn)
     ctx.check(tuple(float(v) for v in got) == exp, "pad_region(%r, %r) = %r, expected %r (west/east move by the east pad, south/north by the north pad)",
               region, arg, got, exp)
-    ctx.check(got[0] <= region[0] and got[1] >= region[1] and got[2] <= region[2] and got[3] >= region[3], "a bound moved inwards")
+    if pn >= 0 and pe >= 0:
+        ctx.check(got[0] <= region[0] and got[1] >= region[1] and got[2] <= region[2] and got[3] >= region[3], "a bound moved inwards")
+    else:
+        ctx.label("negative_pad", *(["shrunk_past_centre"] if (region[1] - region[0] + 2 * pe < 0 or region[3] - region[2] + 2 * pn < 0) else []))
     back = vd.pad_region(got, -pad if not isinstance(pad, list) else (-pn, -pe))
     scale = max(abs(v) for v in list(region) + [pn, pe]) or 1.0
     for a, b in zip(back, region):
@@ -258,6 +263,10 @@ def check_projection(case, ctx):
 def maxabs_cases(draw):
     narr = draw(st.integers(1, 4))
     val = st.one_of(gen.finite(-1e6, 1e6), st.integers(-1000, 1000).map(float), st.just(float("nan")), st.just(0.0))
+    counts = draw(st.sampled_from([False, False, True]))
+    if counts:
+        # every array holds non-negative integers (counts, pixel values): all-unsigned dtype combinations occur
+        val = st.integers(0, 250).map(float)
     arrays = []
     for _ in range(narr):
         n = draw(st.integers(1, 12))
@@ -270,6 +279,8 @@ def maxabs_cases(draw):
         integral = all((not math.isnan(v)) and float(v).is_integer() for v in a)
         nonneg = integral and all(v >= 0 for v in a)
         opts = ["float64"] + (["int64", "int32", "float32"] if integral else []) + (["uint8" if max(a) < 256 else "uint32", "uint64"] if nonneg else [])
+        if counts:
+            opts = ["uint8", "uint16", "uint32", "uint64", "uint8", "int16"]
         dtypes.append(draw(st.sampled_from(opts)))
     return dict(arrays=arrays, shapes=shapes, nan=draw(st.booleans()), as_list=draw(st.booleans()), dtypes=dtypes)
 
